@@ -3,6 +3,7 @@ package c12
 import (
 	"bytes"
 	"fmt"
+	"strings"
 
 	"github.com/lianxiangcloud/linkchain/libs/common"
 	"github.com/lianxiangcloud/linkchain/libs/crypto"
@@ -123,6 +124,14 @@ func (o *identity) eval(P *types.Block, class, group, mode, desc string) {
 			c.Count("validatebasic_caught/"+group, 1)
 		} else {
 			c.Count("validatebasic_blind/"+class, 1)
+			// The header hash (Block.Hash, the identity most of the node works with) commits to the ordered
+			// transactions, the evidence list and the precommits of the previous commit only through the Merkle
+			// roots that ValidateBasic checks against the header. A change of one of THOSE that keeps the header
+			// and still passes ValidateBasic means two different valid blocks under one block hash. (The commit's
+			// own BlockID field and the test-only mock evidence are outside that mechanism and only counted.)
+			if !strings.HasPrefix(class, "Commit.BlockID") && !strings.HasPrefix(class, "Evidence(Mock") {
+				o.violation("identity/body-change-not-tied-to-header/"+group, fmt.Sprintf("%s (no header field re-derived): Block.Hash() is unchanged and ValidateBasic accepts the block", desc), wit())
+			}
 		}
 	}
 }
